@@ -337,3 +337,91 @@ Example C05_empty_nonvacuous :
   norm ebs (q "Emp3") m = m /\
   encode Ex ebs (q "Emp3") m = ROk j /\ to_json Ex ebs (q "Emp3") m = ROk j /\ decode Ex ebs (q "Emp3") j = ROk m.
 Proof. exact EmptyConforms.empty_nonvacuous_nonempty. Qed.
+
+(* ---- appended by P7_compose ---- *)
+
+(* ONE Impl = Spec theorem for every top-level message type whose codec is none or exactly one of the five field
+   codecs: [CodecCompose.field_codec_plain sc md] (computable; the per-codec predicates nulplain_msg / i64plain_msg /
+   bytesplain_msg / tsplain_field / empplain_msg — plain_msg when there is no codec — selected by the owner, together
+   with "the emitted codec compiles") and a well-typed value whose children are un-annotated.  Distinct JSON names,
+   the not-a-well-known-type conditions, distinct field names of the value and the shape of the annotated values
+   (bytes_value_ok, ts_entry_ok) are derived from wt in proofs/CodecCompose.v *)
+From SebufProofs Require CodecCompose.
+Theorem C05_conforms_field_codecs : forall E sc tn md m,
+  lookup_message sc tn = Some md ->
+  CodecCompose.field_codec_plain sc md = true ->
+  wt sc (KMessage tn) (FM m) = true ->
+  forallb (fun e => match find_field (m_fields md) (fst e) with
+                    | Some f => plain_in sc (f_kind f) (snd e)
+                    | None => false end) m = true ->
+  encode E sc tn m = to_json E sc tn m.
+Proof. exact CodecCompose.C05_conforms_field_codecs. Qed.
+Print Assumptions C05_conforms_field_codecs.
+
+(* non-vacuity on the shared schema xs: one message type per field codec and one without a codec *)
+Example C05_field_codecs_nonvacuous :
+  CodecCompose.c05_case_ok xs (q "Nums") (Own FtInt64)
+    [(s "big", vint 9007199254740993); (s "name", vstr "n")]
+    (JObj [(s "big", JNum 9007199254740993); (s "name", JStr (s "n"))]) /\
+  CodecCompose.c05_case_ok xs (q "Nul") (Own FtNullable)
+    [(s "id", vstr "x")]
+    (JObj [(s "id", JStr (s "x")); (s "nick", JNull)]) /\
+  CodecCompose.c05_case_ok xs (q "Emp") (Own FtEmpty)
+    [(s "nul_it", FM []); (s "omit", FM []); (s "id", vstr "x")]
+    (JObj [(s "nulIt", JNull); (s "id", JStr (s "x"))]) /\
+  CodecCompose.c05_case_ok xs (q "Times") (Own FtTs)
+    [(s "secs", tsv 5 123456789); (s "day", tsv 90000 1); (s "id", vstr "x")]
+    (JObj [(s "secs", JNum 5); (s "day", JStr (s "1970-01-02")); (s "id", JStr (s "x"))]) /\
+  CodecCompose.c05_case_ok xs (q "Blob") (Own FtBytes)
+    [(s "h", FS (VBytes [ch 105; ch 183])); (s "id", vstr "x")]
+    (JObj [(s "h", JStr (s "69b7")); (s "id", JStr (s "x"))]) /\
+  CodecCompose.c05_case_ok xs (q "Leaf") OwnNone
+    [(s "a", vstr "x"); (s "n", vint 3)]
+    (JObj [(s "a", JStr (s "x")); (s "n", JStr (s "3"))]).
+Proof. exact CodecCompose.conforms_field_codecs_nonvacuous. Qed.
+Print Assumptions C05_field_codecs_nonvacuous.
+
+(* a repeated bytes field whose option names the default encoding: covered here, outside C05_conforms_bytes_partial *)
+Example C05_field_codecs_default_bytes_list :
+  let m := [(s "h", FS (VBytes [ch 105; ch 183])); (s "reps", FL [FS (VBytes [ch 1]); FS (VBytes [])]); (s "id", vstr "x")] in
+  CodecCompose.c05_case_ok CodecCompose.fcs (q "BDef") (Own FtBytes) m
+    (JObj [(s "h", JStr (s "69b7")); (s "reps", JArr [JStr (s "AQ=="); JStr []]); (s "id", JStr (s "x"))]) /\
+  (exists md, lookup_message CodecCompose.fcs (q "BDef") = Some md /\ forallb (bytes_value_ok CodecCompose.fcs md) m = false) /\
+  CodecCompose.c04_case_ok CodecCompose.fcs (q "BDef") (Own FtBytes) m
+    (JObj [(s "h", JStr (s "69b7")); (s "reps", JArr [JStr (s "AQ=="); JStr []]); (s "id", JStr (s "x"))]) m.
+Proof. exact CodecCompose.conforms_field_codecs_default_bytes_list. Qed.
+
+(* each remaining hypothesis is needed *)
+Example C05_conforms_field_codecs_needs_plain :
+  (let m := [(s "by_k", FMap [(VStr (s "k"), vint 5)])] in
+   exists md, lookup_message xs (q "NumMap") = Some md /\ owner_of xs md = Own FtInt64 /\
+     buildable xs FtInt64 md = true /\ CodecCompose.field_codec_plain xs md = false /\
+     wt xs (KMessage (q "NumMap")) (FM m) = true /\
+     forallb (fun e => match find_field (m_fields md) (fst e) with
+                       | Some f => plain_in xs (f_kind f) (snd e) | None => false end) m = true /\
+     encode Ex xs (q "NumMap") m = ROk (JObj [(s "byK", JObj [(s "k", JStr (s "5"))])]) /\
+     to_json Ex xs (q "NumMap") m = ROk (JObj [(s "byK", JObj [(s "k", JNum 5)])])) /\
+  (let m := [(s "o", vint 5)] in
+   exists md w, lookup_message i64s (q "Opt") = Some md /\ owner_of i64s md = Own FtInt64 /\
+     i64plain_msg md = true /\ buildable i64s FtInt64 md = false /\
+     CodecCompose.field_codec_plain i64s md = false /\
+     wt i64s (KMessage (q "Opt")) (FM m) = true /\
+     encode Ex i64s (q "Opt") m = RUnm w /\ to_json Ex i64s (q "Opt") m = ROk (JObj [(s "o", JNum 5)])).
+Proof. exact CodecCompose.conforms_field_codecs_needs_plain. Qed.
+Example C05_conforms_field_codecs_needs_wt :
+  let m := [(s "big", vint 0)] in
+  exists md, lookup_message xs (q "Nums") = Some md /\ CodecCompose.field_codec_plain xs md = true /\
+    forallb (fun e => match find_field (m_fields md) (fst e) with
+                      | Some f => plain_in xs (f_kind f) (snd e) | None => false end) m = true /\
+    wt xs (KMessage (q "Nums")) (FM m) = false /\
+    encode Ex xs (q "Nums") m = ROk (JObj []) /\ to_json Ex xs (q "Nums") m = ROk (JObj [(s "big", JNum 0)]).
+Proof. exact CodecCompose.conforms_field_codecs_needs_wt. Qed.
+Example C05_conforms_field_codecs_needs_plain_children :
+  let m := [(s "inner", FM [(s "big", vint 5)])] in
+  exists md, lookup_message xs (q "NumsHolder") = Some md /\ owner_of xs md = OwnNone /\ CodecCompose.field_codec_plain xs md = true /\
+    wt xs (KMessage (q "NumsHolder")) (FM m) = true /\
+    forallb (fun e => match find_field (m_fields md) (fst e) with
+                      | Some f => plain_in xs (f_kind f) (snd e) | None => false end) m = false /\
+    encode Ex xs (q "NumsHolder") m = ROk (JObj [(s "inner", JObj [(s "big", JStr (s "5"))])]) /\
+    to_json Ex xs (q "NumsHolder") m = ROk (JObj [(s "inner", JObj [(s "big", JNum 5)])]).
+Proof. exact CodecCompose.conforms_field_codecs_needs_plain_children. Qed.
